@@ -140,7 +140,7 @@ def base_packages(n):
 def run(ctx):
     common.build_yardl()
     quick = ctx.tier == "quick"
-    N = {"bytes": 300, "mutate": 1200, "arbitrary": 500, "manifest": 300, "nest": 12} if quick else \
+    N = {"bytes": 300, "mutate": 1100, "arbitrary": 450, "manifest": 300, "nest": 12} if quick else \
         {"bytes": 10000, "mutate": 60000, "arbitrary": 25000, "manifest": 8000, "nest": 40}
     ctx.rule = ("one child process per (input, command): raw bytes, 12 text/YAML-level mutation operators on valid generated packages (model files, "
                 "imported package files), semantically arbitrary models, manifest mutations, oversized generic nesting. "
@@ -166,6 +166,10 @@ def run(ctx):
         jobs.append(("manifest", i))
     for i in range(N["nest"]):
         jobs.append(("nest", i))
+    # every catalogue expression, alone, on a record whose fields have known types (plus seeded compositions)
+    n_expr = len(fuzzgen.EXPRS) + (60 if quick else 2000)
+    for i in range(n_expr):
+        jobs.append(("expr", i))
 
     def one(job):
         kind, i = job
@@ -192,6 +196,14 @@ def run(ctx):
                 files[root_rel + "/second.yaml"] = fuzzgen.arbitrary_defs(r, r.randint(1, 4))
         elif kind == "manifest":
             files[root_rel + "/_package.yml"] = fuzzgen.mutate_manifest(pkg.ns, r)
+        elif kind == "expr":
+            ex = fuzzgen.EXPRS[i] if i < len(fuzzgen.EXPRS) else fuzzgen.compose_expr(r)
+            exq = '"' + ex.replace("\\", "\\\\").replace('"', '\\"') + '"'
+            files = {root_rel + "/_package.yml": "namespace: %s\n" % pkg.ns,
+                     root_rel + "/model.yml": ("Inner: !record\n  fields:\n    b: int\n    c: string\n"
+                                               "TE: !record\n  fields:\n    a: 'int[x, y]'\n    b: 'int[,]'\n    v: int*\n    m: string->int\n    u: [int, string]\n    o: int?\n    r: Inner\n    f: 'float[2, 3]'\n    zz: double\n"
+                                               "  computedFields:\n    k0: 1\n    k1: k0 + 1\n    k2: %s\n" % exq)}
+            desc += " computed field `%s`" % ex[:80]
         elif kind == "nest":
             depth = [2, 3, 4, 5, 6, 7, 8, 9, 10, 11, 10, 11][i % 12] if i % 2 == 0 else [2, 4, 6, 8, 10, 12, 14, 16, 18, 20, 22, 24][i % 12]
             t = "int"
